@@ -215,6 +215,12 @@ class Collapser:
             for v, val in table.items():
                 inst_ent.fixup[v] = val
             inst = instancing.Instance.from_entity(inst_ent)
+            if rng.random() < 0.3:
+                # the same instance built through the constructor, its tables supplied in every form an Iterable can take
+                supply = rng.choice((list, tuple, iter, lambda seq: (x for x in seq), lambda seq: map(lambda x: x, seq)))
+                inst = instancing.Instance(inst.name, inst.filename, inst.pos, inst.orient, inst.fixup_type,
+                                           supply(list(inst.outputs)), supply(list(inst.fixup.copy_values())))
+                self.run.count('instances_built_through_the_constructor')
             inst_ent.remove()
             before_brushes = list(target.brushes)
             before_ents = list(target.entities)
@@ -787,7 +793,7 @@ def main(run, shard=(0, 1)) -> None:
     probe.report(run)
     probe.check_reached(run)
     run.require('collapses', 'hidden_entity_brushes_checked', 'nested_name_maps', 'nested_copies_checked', 'nested_fixup_values_checked', 'collapses_keeping_visgroups', 'collapsed_copies_mutated', 'typed_positions_checked', 'typed_angle_keys_checked', 'variables_in_untransformed_keys_checked', 'nested_fixup_values_with_variables', 'typed_directions_checked', 'typed_axes_checked', 'typed_sidelists_checked', 'typed_nodeids_checked', 'typed_name_or_class_checked', 'typed_pitch_checked', 'plane_points_checked', 'texture_projections_checked', 'origins_checked', 'orientations_checked',
-                'names_checked', 'substitutions_checked', 'template_snapshots_compared', 'collapse_all_runs', 'displacements_checked', 'collapses_of_a_rewritten_file')
+                'names_checked', 'substitutions_checked', 'template_snapshots_compared', 'collapse_all_runs', 'displacements_checked', 'collapses_of_a_rewritten_file', 'instances_built_through_the_constructor')
 
 
 def replay(run, data) -> None:
@@ -805,4 +811,4 @@ def replay(run, data) -> None:
 
 
 # (kept at the end of the file so that the text above stays the description the check was first built to)
-RULE += ' ' + "Later additions: ANGLES-typed keyvalues other than angles (movedir, pushdir, spraydir, ajarangles); every field of an output; variable names that are prefixes of each other and values with backslashes / '$'. collapse_all is called two or three times in one process with the instance file rewritten in between (same folder, fresh or reused filesystem object): each call copies what the file holds at that time."
+RULE += ' ' + "Later additions: ANGLES-typed keyvalues other than angles (movedir, pushdir, spraydir, ajarangles); every field of an output; variable names that are prefixes of each other and values with backslashes / '$'. collapse_all is called two or three times in one process with the instance file rewritten in between (same folder, fresh or reused filesystem object): each call copies what the file holds at that time. Three instances in ten are built through the Instance constructor with outputs and fixups supplied as list, tuple, iterator, generator or map object."
